@@ -25,7 +25,12 @@ BACKENDS = ("c", "py")
 RULE = "cases = (component position, host kind, word); non-trivial = human_repr() differs from str(url); states = distinct human_repr strings."
 ASSUMPTIONS = ["human_repr treats each component independently with a fixed unsafe set, so short words over all delimiters cover it"]
 
-HOSTS = [("h.com", "h.com"), ("é.com", "é.com"), ("127.0.0.1", "127.0.0.1"), ("::1", "[::1]")]
+HOSTS = [("h.com", "h.com"), ("é.com", "é.com"), ("127.0.0.1", "127.0.0.1"), ("::1", "[::1]"),
+         # swept with the one-letter space only: fully qualified (trailing dot) names, names only the IDNA-2003 fallback codec accepts
+         # (symbols, underscore labels), both at once, an IPv6 zone, an A-label given as such
+         ("h.com.", "h.com."), ("é.com.", "é.com."), ("☃.net", "☃.net"), ("☃.net.", "☃.net."), ("_dmarc.é.com.", "_dmarc.é.com."),
+         ("fe80::1%eth0", "[fe80::1%eth0]"), ("xn--9ca.com", "é.com")]
+MAIN_HOSTS = 4
 POSITIONS = ["user", "password", "path", "qkey", "qval", "fragment", "all", "path_only", "default_port", "default_port_userinfo"]
 DELIMS = {"user": "#/:?@[]", "password": "#/:?@[]", "path": "#?", "query": "#&+;=", "fragment": ""}
 PCT = re.compile(r"((?:%[0-9A-Fa-f]{2})+)")
@@ -183,7 +188,7 @@ def plan(ctx):
     for b in BACKENDS:
         for pos in POSITIONS:
             for hi in range(len(HOSTS)):
-                for sp, n in spaces:
+                for sp, n in (spaces if hi < MAIN_HOSTS else spaces[:1]):
                     if not quick and sp == "nX3" and hi > 1:
                         continue
                     for part in range(n):
